@@ -8,5 +8,6 @@ p = os.path.join(os.path.dirname(os.path.dirname(os.path.abspath(__file__))), 's
 d = json.load(open(p))
 d['functions'] = sorted(P.functions.keys())
 d['signatures'] = {q: {'params': list(fi.params), 'kwonly': list(fi.kwonly), 'vararg': fi.vararg, 'kwarg': fi.kwarg} for q, fi in sorted(P.functions.items())}
+d['globals'] = sorted('%s.%s' % (m.name, n) for m in P.modules.values() for n in m.assigns)
 json.dump(d, open(p, 'w'), indent=0)
 print(len(d['functions']), 'functions')
